@@ -3,7 +3,7 @@ import GMGProofs.Lemmas.CycleFmg
 # The `solve()` loop: unfolding, stop test, independence of stale object state
 core Lean only.
 -/
-namespace Cycle
+namespace MGCycle
 variable {V R : Type}
 
 /-! ## upward-exposed reads of a program -/
@@ -386,4 +386,4 @@ theorem startState_sim (o : Ops V) (c : SolveCfg R) (s s' : Obj V R)
   · simp only [startState]
     rw [initSolution_rhs, initSolution_rhs, hr]
 
-end Cycle
+end MGCycle
